@@ -1373,6 +1373,17 @@ class Interp:
             v_ = self._class_constant(self.frames[0].self_cls, name)
             if v_ is not None:
                 return v_
+        if b[0] == "attr" and b[1][0] == "cls" and name in ("value", "name", "_value_", "_name_") and b[2].isupper() and self._is_enum(b[1][1]):
+            # <Enum>.MEMBER.value / .name of a repository enum whose member is assigned a literal in the class body
+            try:
+                ci_e = self.p.cls(b[1][1])
+                ex_ = ci_e.attrs.get(b[2])
+            except Exception:
+                ex_ = None
+            if name in ("name", "_name_") and ex_ is not None:
+                return const(b[2])
+            if isinstance(ex_, ast.Constant):
+                return const(ex_.value)
         if b[0] == "obj":
             # a class-level literal of the object's class (`chunk = 4096` in the class body)
             try:
@@ -1884,6 +1895,14 @@ class Interp:
                     fi, recv = m_, None
                 else:
                     fi, recv = m_, cv[1]
+                cv = ("func", m_.fq)
+        elif meta is None and cv[0] == "attr" and cv[1][0] == "attr" and cv[1][1][0] == "cls" and cv[1][2].isupper() and self._is_enum(cv[1][1][1]):
+            try:
+                m_ = self.p.find_method(self.p.cls(cv[1][1][1]), cv[2])
+            except Exception:
+                m_ = None
+            if m_ is not None and not any(d in ("staticmethod", "classmethod", "property") for d in m_.decorators):
+                fi, recv = m_, cv[1]
                 cv = ("func", m_.fq)
         elif meta is None and cv[0] == "obj":
             try:
